@@ -32,7 +32,9 @@ def main(tier, seed):
             ("fibers", scenarios.fiber_scenarios(rng, n, nfib=3, exhaustive_small=False)), ("classes", scenarios.class_scenarios(rng, n)),
             ("iteration", scenarios.iteration_scenarios(rng, n)), ("errors", scenarios.error_scenarios(rng, n)),
             ("modules", scenarios.module_scenarios(rng, n)), ("snippets", scenarios.snippet_scenarios(rng, n)),
-            ("hashmap", scenarios.hashmap_scenarios(rng, n, exhaustive_pairs=(tier == "thorough")))]
+            ("hashmap", scenarios.hashmap_scenarios(rng, n, exhaustive_pairs=(tier == "thorough"))),
+            ("thrownvalues", scenarios.thrown_value_scenarios()), ("handlerintact", scenarios.handler_intact_scenarios()),
+            ("loopstate", scenarios.loop_state_scenarios()), ("rangecache", scenarios.range_cache_scenarios())]
     total = 0
     for name, progs in fams:
         if len(progs) > n:
